@@ -150,6 +150,7 @@ type Chain struct {
 	PrivateMempool bool // some CheckTx calls go to one replica only
 	MempoolDirty   bool
 	PrivateChecks  int
+	Bursts         int // privateBurst actions
 	offPool        []*shmsg.Message // off-pool configuration proposals sent so far (newest last)
 	Grafts         int // private CheckTx of (signature of a delivered transaction, other payload)
 	HasHot      bool // most transactions come from HotSender (long histories: per-sender state grows)
@@ -1040,8 +1041,33 @@ func (c *Chain) privateGraft(t *rapid.T, tx []byte, tag string) {
 	c.Grafts++
 }
 
+// privateBurst offers 9-13 transactions of one sender to the mempool of one replica only (more than the
+// per-sender admission limit of a block) and then delivers a further transaction of that sender in the open
+// block on every replica: how often a node's mempool was asked about a sender must not decide a DeliverTx.
+func (c *Chain) privateBurst(t *rapid.T) {
+	i := rapid.IntRange(1, len(c.Reps)-1).Draw(t, "burstRep")
+	s := c.genSender(t)
+	k := rapid.IntRange(9, 13).Draw(t, "burstLen")
+	c.Desc = append(c.Desc, fmt.Sprintf("P%d:burst(s%d x%d)", i, s, k))
+	for j := 0; j < k; j++ {
+		msg, _ := c.genMessage(t, s)
+		tx := uni.MakeTx(s, c.G.chainID(), c.nextNonce(), msg)
+		c.guard("CheckTx(burst)", func() { c.Reps[i].CheckTx(abcitypes.RequestCheckTx{Tx: tx}) })
+	}
+	c.MempoolDirty = true
+	c.PrivateChecks++
+	c.Bursts++
+	msg, tag := c.genMessage(t, s)
+	n := c.nextNonce()
+	c.DeliverTx(uni.MakeTx(s, c.G.chainID(), n, msg), fmt.Sprintf("s%d/n%d/%s", s, n, tag))
+}
+
 func (c *Chain) Step(t *rapid.T) {
 	if c.PrivateMempool && len(c.Reps) > 1 && rapid.IntRange(0, 4).Draw(t, "private") == 0 {
+		if rapid.IntRange(0, 3).Draw(t, "burst") == 0 {
+			c.privateBurst(t)
+			return
+		}
 		c.privateCheckTx(t)
 		return
 	}
